@@ -20,12 +20,18 @@ META = {
               'profile strings symbolic; operation sequences over '
               '{authenticate, refresh, validate, invalidate, join, sign_out} '
               'of length 1 from every initial state and length 2 (thorough: '
-              '3) from the empty and the full state',
+              '3) from the empty and the full state; error objects with one '
+              'additional member named after any identifier-like string '
+              'constant, keyword or format field of authentication.py '
+              '(harvested from the source on every run) or an unrelated '
+              'name, length-1 sequences from the full state',
     'outside': 'HTTP encoding by the requests library (the requests.post '
                'boundary is the environment stub); 1xx/3xx and 2xx codes '
                'other than 200/204; malformed success bodies',
     'assumptions': [
-        'E-requests: requests.post records (url, data, headers) and returns '
+        'E-requests: the reply has status_code, json(), text and content '
+        '(two arbitrary bytes for a non-JSON body); '
+        'requests.post records (url, data, headers) and returns '
         'a reply with symbolic status and a body shape chosen by fork',
         'E-json: json.dumps keeps the payload object (structural '
         'comparison); the replay uses the real json module',
@@ -102,6 +108,19 @@ class Reply:
         self.body = body
         self.text = {'nonjson': 'Bad Gateway', 'empty': ''}.get(
             shape, '<json>')
+        # the raw body: for a non-JSON body ANY two bytes (not necessarily
+        # valid UTF-8 - `text` is what requests makes of them, decoding
+        # with replacement, so it never fails)
+        if shape == 'nonjson':
+            self.content = Ctx.cur.bytes('raw_body%d' % Reply.count(), 2)
+        else:
+            self.content = self.text.encode('utf-8')
+
+    @staticmethod
+    def count():
+        env = Ctx.cur.env
+        env['n_replies'] = env.get('n_replies', -1) + 1
+        return env['n_replies']
 
     def json(self):
         if self.shape in ('nonjson', 'empty'):
@@ -223,7 +242,8 @@ def _payload_eq(got, want):
 ANYHEX = object()
 
 
-def session(ctx, length, initial='any', sentinel=False, extra=False):
+def session(ctx, length, initial='any', sentinel=False, extra=False,
+            first_op=None):
     import minecraft.authentication as au
     from minecraft.exceptions import YggdrasilError
     stub = RequestsStub(ctx, extra)
@@ -245,7 +265,11 @@ def session(ctx, length, initial='any', sentinel=False, extra=False):
     trace = []
     with netenv.patched(au, requests=stub):
         for step in range(length):
-            op = OPS[concretize(ctx.int('op%d' % step, 0, len(OPS) - 1))]
+            if step == 0 and first_op is not None:
+                op = first_op       # instance split by first operation
+            else:
+                op = OPS[concretize(ctx.int('op%d' % step, 0,
+                                            len(OPS) - 1))]
             before = _snapshot(tok)
             ncalls = len(stub.calls)
             # the "authenticated" flag: all four present and non-empty
@@ -407,12 +431,20 @@ def instances(tier, seed):
                       'token must be refuted'),
     ]
     if tier == 'thorough':
-        out += [
-            Instance('session:3:full', 'session',
-                     {'length': 3, 'initial': 'full'}, W=64, budget_s=7200,
-                     witness_every=211, max_paths=5000000),
-            Instance('session:2:any', 'session',
-                     {'length': 2, 'initial': 'any'}, W=64, budget_s=7200,
-                     witness_every=211, max_paths=5000000),
-        ]
+        # one instance per first operation (they run in parallel)
+        for op in OPS:
+            out += [
+                Instance('session:3:full:%s' % op, 'session',
+                         {'length': 3, 'initial': 'full', 'first_op': op},
+                         W=64, budget_s=7200, witness_every=211,
+                         max_paths=5000000),
+                Instance('session:2:any:%s' % op, 'session',
+                         {'length': 2, 'initial': 'any', 'first_op': op},
+                         W=64, budget_s=7200, witness_every=211,
+                         max_paths=5000000),
+            ]
+        out.append(Instance('session:2:full:extra', 'session',
+                            {'length': 2, 'initial': 'full', 'extra': True},
+                            W=64, budget_s=3600, witness_every=211,
+                            max_paths=5000000))
     return out
